@@ -25,6 +25,9 @@ CLAIMED = {
  "C06": dict(tech="typestate rule on every action Stop emission site (guard set, shared-count decrement, STOPPING before emit, via CFG must-pass-through); effect-set sibling cross-check of _finish_flow/_abort_flow; who-may-write table for `activated`; scope pairing on emission traces (emit2)",
              text="Decides the Stop-event discipline at every emission site (exactly-one / never for non-running actions / shared actions), that finishing and aborting a flow perform the same set of lifetime effects in the semantically required order, the writers of the activation count and the immediate-finish guard. The lifetime invariant over all hierarchies and histories is not decided.",
              ref="DESIGN.md C06"),
+ "C09": dict(tech="who-may-write rules (raw head fields, matching index); construct->bind->use typestate per FlowHead construction site via CFG must-pass-through; de-register-before-delete dominance at every deletion site; drain structure of run_to_completion",
+             text="Decides the mechanisms without which the incremental event->heads index cannot be exact: only the notifying setters move a head, every constructed or deserialised head has both callbacks bound to its own flow before it moves, every deletion of heads/flow states de-registers first, the index has exactly two symmetric maintainers, and the event loop ends only with an empty queue. The invariant over all reachable states is not decided. Found and repaired F7.",
+             ref="DESIGN.md C09"),
 }
 NA = {
  "C18": "equality of string results over all chunkings of a stateful transducer; no structural necessary condition that is not a brittle proxy (DESIGN.md C18)",
